@@ -27,7 +27,7 @@ func (c *checkDef) Owns(prop string) bool {
 }
 
 func racePackages() []string {
-	return []string{"./cache", "./utils/event", "./proxy", "./proxy/certs", "./webserver/auth"}
+	return []string{"./cache", "./utils/event", "./proxy", "./proxy/certs", "./webserver/auth", "./logging"}
 }
 
 
@@ -603,6 +603,7 @@ func checkC19() *checkDef {
 				{Pkg: "./proxy", Scenario: "proxy/switches", Params: map[string]any{}, Workers: 8},
 				{Pkg: "./cache", Scenario: "cache/sched", Params: c19CacheScenarios(), K: k, E: 1, F: 2, Horizon: 5000},
 				{Pkg: "./cache", Scenario: "cache/settings", Params: map[string]any{"depth": 3}},
+				{Pkg: "./logging", Scenario: "logging/sched", Params: map[string]any{}, K: 2, E: 1, F: 1, Horizon: 20000, Workers: 16},
 			}
 		},
 	}
@@ -662,6 +663,8 @@ func checkC15() *checkDef {
 				{Pkg: "./proxy/certs", Scenario: "certs/sched", Params: map[string]any{}, K: k, E: 0, Horizon: 3000, Race: true, Workers: 4},
 				// dashboard sessions: requests with one cookie, logins, logouts and the session GC pass
 				{Pkg: "./webserver/auth", Scenario: "auth/sched", Params: map[string]any{}, K: k + 1, E: 1, Horizon: 3000, Race: true, Workers: 4},
+				// the logging component rebuilding the process-wide logger from several change notifications
+				{Pkg: "./logging", Scenario: "logging/sched", Params: map[string]any{}, K: 1, E: 1, F: 1, Horizon: 20000, Race: true, Workers: 8},
 			}
 		},
 	}
